@@ -225,6 +225,9 @@ class RadioEnv:
         self._orig_arc = rd._nr_of_arc_retries
         if self.nonblocking_queue:
             rd.queue = NonBlockingQueueShim()
+        # every case gets its own radio table: a shared radio left open by an earlier case of this process (e.g. a Crazyflie
+        # object that was never closed) must not be handed to this case with its old fake dongle
+        rd.RadioManager._radios = []
         return self
 
     def __exit__(self, *a):
